@@ -3,6 +3,7 @@ package main
 import (
 	"bytes"
 	"fmt"
+	"strings"
 
 	"verif/engine/bind"
 	"verif/engine/ev"
@@ -127,9 +128,13 @@ func runC08(r *ev.Run, thorough bool) {
 	parTypes(r, bind.Types, func(t *rm.Type, l *ev.Local) {
 		a, rj := int64(0), int64(0)
 		small := encLen(valenum.Distinct(t)) <= 200
-		wireSpace(t, wireOpts{Dev: 1, Indel: true, DevBaseOnly: !thorough, Dev2Base: thorough && small}, func(w []byte, desc string) bool {
+		extra := int64(0)
+		wireSpace(t, wireOpts{Dev: 1, Indel: true, IndelMaxLen: 200, DevBaseOnly: !thorough, Dev2Base: thorough && small}, func(w []byte, desc string) bool {
 			key := ev.H(t.QName() + string(w))
-			l.States[key] = struct{}{}
+			pairwise := strings.Contains(desc, " bytes ") // 2-byte substitutions: distinct by construction, counted but not stored (memory)
+			if !pairwise {
+				l.States[key] = struct{}{}
+			}
 			l.Transitions += 2
 			l.Traces++
 			viol := c08Wire(t, w)
@@ -144,7 +149,14 @@ func runC08(r *ev.Run, thorough bool) {
 			} else {
 				rj++
 			}
-			l.Eval(key, rerr == nil)
+			if pairwise {
+				l.Evals++
+				if rerr == nil {
+					extra++
+				}
+			} else {
+				l.Eval(key, rerr == nil)
+			}
 			if viol != nil {
 				viol.Detail = desc + ": " + viol.Detail
 				r.Violate(viol)
@@ -172,6 +184,7 @@ func runC08(r *ev.Run, thorough bool) {
 				}
 			}
 		}
+		r.SetDistinctAdd(extra)
 		r.Add("accepted_by_reference", a)
 		r.Add("rejected_by_reference", rj)
 	})
